@@ -410,6 +410,8 @@ type c05World struct {
 	fault          bool                             // profile writes fail during the next request
 	cachedReq      bool                             // the next request is served while the primary database does not answer in time (fromCache)
 	cachedWrote    bool                             // ... and the primary's user_profile table was different afterwards
+	addr           int                              // the next request comes from this client address (index into c05Addrs; 0: where every request came from before)
+	addrAt         map[int]int                      // position in w.ops -> client address of that request (absent: 0)
 	chains         map[string][][]*x509.Certificate // by user name
 	dirty          bool                             // stored profiles may differ from the pristine ones
 	savedFor       int                              // configuration the stored profiles were written for
@@ -609,6 +611,7 @@ func (w *c05World) reset() {
 	w.proved, w.accepted = map[[2]int]bool{}, map[string]bool{}
 	w.provedAt = map[[2]int]int64{}
 	w.cert, w.fault = 0, false
+	w.addr, w.addrAt = 0, map[int]int{}
 	if w.chains == nil {
 		w.chains = map[string][][]*x509.Certificate{}
 	}
@@ -820,6 +823,11 @@ func (w *c05World) attach(req *http.Request, cs []int) (int, int) { return w.att
 
 // the Coq / human text of the operation with its request modifiers
 func (w *c05World) wrap(coq, human string) (string, string) {
+	if w.addr != 0 { // the operation is about to be appended to w.ops: remember where its request came from
+		w.addrAt[len(w.ops)] = w.addr
+		human = "from(" + c05Addrs[w.addr].String() + ")+" + human
+		w.res.bump("request:from-another-address")
+	}
 	if w.cachedReq {
 		return fmt.Sprintf("Cached (%s)", coq), "cached+" + human
 	}
@@ -842,6 +850,42 @@ func (w *c05World) with(cert int, fault bool, f func()) {
 	w.cert, w.fault = cert, fault
 	f()
 	w.cert, w.fault = 0, false
+}
+
+// The client address of a request: what the handlers see as r.RemoteAddr, and what a proxy (or the client itself)
+// wrote into the forwarding headers.  For the model the address is carried next to the operation and ignored
+// (Model.SessionAddr); the numbers are the model's addresses.
+type c05Addr struct {
+	remote string
+	hdr    [][2]string
+}
+
+var c05Addrs = []c05Addr{
+	{remote: "10.1.2.3:34567"},      // 0: where every request of the harness came from before
+	{remote: "198.51.100.77:40000"}, // another host
+	{remote: "10.1.2.3:50001"},      // the same host, another port
+	{remote: "[2001:db8::5]:443"},   // IPv6
+	{remote: "10.1.2.3:34567", hdr: [][2]string{{"X-Forwarded-For", "203.0.113.9"}}},
+	{remote: "10.1.2.3:34567", hdr: [][2]string{{"X-Real-IP", "203.0.113.10"}}},
+	{remote: "10.1.2.3:34567", hdr: [][2]string{{"Forwarded", "for=203.0.113.11;proto=https"}}},
+	// through a local proxy (lib/util GetRequestRealIp believes the headers of a request from 127.0.0.1)
+	{remote: "127.0.0.1:5555", hdr: [][2]string{{"X-Forwarded-For", "203.0.113.12, 10.0.0.1"}, {"X-Real-IP", "203.0.113.12"}}},
+}
+
+func (a c05Addr) String() string {
+	out := a.remote
+	for _, h := range a.hdr {
+		out += " " + h[0] + ": " + h[1]
+	}
+	return out
+}
+
+// run one operation as a request coming from client address a
+func (w *c05World) from(a int, f func()) {
+	old := w.addr
+	w.addr = a
+	f()
+	w.addr = old
 }
 
 // run one operation as a request during which every profile read is served from the cache database
@@ -1023,6 +1067,11 @@ func (w *c05World) acceptOnce(kind, value string, expired bool, em []c05Cookie) 
 }
 
 func (w *c05World) serve(req *http.Request) *httptest.ResponseRecorder {
+	// the one place every request of a history passes: where it comes from
+	req.RemoteAddr = c05Addrs[w.addr].remote
+	for _, h := range c05Addrs[w.addr].hdr {
+		req.Header.Set(h[0], h[1])
+	}
 	if w.fault {
 		// the primary database stays readable but refuses profile writes for the time of this request
 		if _, err := w.env.state.db.Exec(`CREATE TRIGGER IF NOT EXISTS verif_write_fault BEFORE INSERT ON user_profile BEGIN SELECT RAISE(FAIL, 'verif: write fault'); END`); err != nil {
@@ -1582,6 +1631,11 @@ func (w *c05World) alphabet() []func() {
 		// the primary database is slow: profiles come from the cache
 		func() { w.cached(func() { w.totp([]int{0}, 1, w.modelStep()) }) },
 		func() { w.cached(func() { w.bootstrap([]int{1}, otp(2)) }) },
+		// the client address: the cached TOTP request from another host; a TOTP request from the same host and
+		// another port; the assertion from an IPv6 address (whatever address asked for the challenge)
+		func() { w.from(1, func() { w.cached(func() { w.totp([]int{0}, 1, w.modelStep()) }) }) },
+		func() { w.from(2, func() { w.totp([]int{0}, 1, w.modelStep()) }) },
+		func() { w.from(3, func() { w.finish("U2fFinish", []int{0}, 1, false, cur(1)) }) },
 	}
 }
 
@@ -1596,6 +1650,10 @@ func (w *c05World) prefix() {
 }
 
 func (w *c05World) randomOp(rng *mrand.Rand) {
+	if w.addr == 0 && rng.Intn(4) == 0 { // one request in four comes from somewhere else
+		w.from(1+rng.Intn(len(c05Addrs)-1), func() { w.randomOp(rng) })
+		return
+	}
 	cert, fault := 0, false
 	if rng.Intn(5) == 0 {
 		cert = 1 + rng.Intn(2)
@@ -2154,7 +2212,79 @@ func (w *c05World) targeted() []func() {
 			w.oktaOtp([]int{len(w.cookies) - 1}, 2, true)
 		},
 		w.cachedScenario,
+		w.addressScenario,
 	}
+}
+
+// Where a request comes from decides nothing: one-time values are spent for every address once they were accepted
+// from one, a challenge handed to one address is answered from another, sessions and values belong to users.
+func (w *c05World) addressScenario() {
+	const X, P, Y, F, R, Fw, L = 1, 2, 3, 4, 5, 6, 7 // another host, same host / another port, IPv6, the forwarding headers, via a local proxy
+	cur := func(u int) int {
+		if id, ok := w.curChal[u]; ok {
+			return id
+		}
+		return 9999
+	}
+	otp := func(u int) int {
+		if id, ok := w.curOtp[u]; ok {
+			return id
+		}
+		return -1
+	}
+	last := func() int { return len(w.cookies) - 1 }
+	w.from(Y, func() { w.login(1, true) }) // cookie 2: a fresh session of alice, opened from Y
+	step := w.modelStep()
+	// a code accepted from X while profiles come from the cache is spent for every address ...
+	w.from(X, func() { w.cached(func() { w.totp([]int{0}, 1, step) }) })
+	w.from(Y, func() { w.cached(func() { w.totp([]int{2}, 1, step) }) }) // the fresh session, another host
+	w.from(P, func() { w.cached(func() { w.totp([]int{2}, 1, step) }) })
+	w.from(F, func() { w.cached(func() { w.totp([]int{2}, 1, step) }) })
+	w.from(L, func() { w.cached(func() { w.totp([]int{0}, 1, step) }) })
+	w.from(Y, func() { w.totp([]int{2}, 1, step) }) // ... also once the primary answers again
+	w.from(X, func() { w.totp([]int{2}, 1, step) })
+	w.totp([]int{2}, 1, step)
+	// the addresses swapped, the next step
+	w.from(Y, func() { w.cached(func() { w.totp([]int{2}, 1, step+1) }) })
+	w.from(X, func() { w.cached(func() { w.totp([]int{0}, 1, step+1) }) })
+	w.from(R, func() { w.cached(func() { w.totp([]int{0}, 1, step+1) }) })
+	w.cached(func() { w.totp([]int{0}, 1, step+1) })
+	w.tick(30)
+	// accepted with the primary up from X: spent from Y, cached or not
+	w.from(X, func() { w.with(0, true, func() { w.totp([]int{0}, 1, step+2) }) })  // the counter cannot be saved: nothing accepted
+	w.from(Y, func() { w.with(1, false, func() { w.totp([]int{1}, 1, step+2) }) }) // alice's certificate, bob's cookie: spent, no cookie
+	w.from(X, func() { w.cached(func() { w.totp([]int{0}, 1, step+2) }) })
+	w.from(Fw, func() { w.totp([]int{2}, 1, step+2) })
+	// hardware token: the challenge is the user's, whoever asked for it from wherever
+	w.from(X, func() { w.u2fBegin([]int{0}) })
+	w.from(Y, func() { w.finish("U2fFinish", []int{1}, 1, false, cur(1)) }) // bob's session
+	w.from(Y, func() { w.finish("U2fFinish", []int{2}, 1, false, cur(1)) }) // alice's other session, another address
+	w.from(X, func() { w.finish("U2fFinish", []int{0}, 1, false, cur(1)) }) // answered already
+	w.from(F, func() { w.cached(func() { w.waBegin([]int{0}) }) })
+	w.from(R, func() { w.cached(func() { w.finish("WaFinish", []int{0}, 1, false, cur(1)) }) })
+	w.from(F, func() { w.finish("WaFinish", []int{0}, 1, false, cur(1)) })
+	w.from(L, func() { w.with(1, false, func() { w.u2fBegin(nil) }) }) // certificate only, through the proxy
+	w.from(P, func() { w.with(1, false, func() { w.finish("U2fFinish", []int{0}, 1, false, cur(1)) }) })
+	w.from(P, func() { w.waBegin([]int{1}) })
+	w.from(X, func() { w.finish("WaFinish", []int{1}, 2, true, cur(2)) })
+	// bootstrap OTP: issued from X, used from Y, again from X
+	w.from(X, func() { w.issueOtp(2, 3600) })
+	w.from(Y, func() { w.with(0, true, func() { w.bootstrap([]int{1}, otp(2)) }) })
+	w.from(Y, func() { w.bootstrap([]int{1}, otp(2)) })
+	w.from(X, func() { w.bootstrap([]int{1}, otp(2)) })
+	w.from(L, func() { w.bootstrap([]int{1}, otp(2)) })
+	// push: started from X, polled from elsewhere by the other user and by its owner
+	w.from(X, func() { w.pushStart([]int{0}, 0) })
+	w.approve(w.vcTx[0])
+	w.from(Y, func() { w.poll([]int{1}, 0) })
+	w.from(Fw, func() { w.poll([]int{0}, 0) })
+	w.from(Y, func() { w.vipOtp([]int{1}, 1, true) })
+	w.from(Y, func() { w.vipOtp([]int{1}, 2, true) })
+	// CLI token: shown to X, sent from Y in another user's and in the own session
+	w.from(X, func() { w.showTok([]int{last()}, c05TokenLife) })
+	w.from(Y, func() { w.sendDoc([]int{0}, 0) })
+	w.from(Y, func() { w.sendDoc([]int{last()}, 0) })
+	w.from(R, func() { w.logout([]int{0}) })
 }
 
 // the primary database is slow for some requests: they are served from the cache copy
@@ -2221,7 +2351,7 @@ const c05OktaTargeted = 16
 
 func TestVerif_C05(t *testing.T) {
 	verifWriteConsts(t)
-	res := newVerifResult("exhaustive depth-3 histories over 13 core letters and depth-2 over all 29 letters of the alphabet, depth 3 over the 8 letters of the Okta alphabet under the Okta configuration (thorough: depth 3 over 19 letters, depth 4 over the first eight and over the Okta letters); requests optionally authenticated by a verified client certificate, with failing profile writes, or served from the cache database, after the prefix [login user 1; login user 2] + seeded random histories of length <= 12 (thorough <= 20) over all operations + 18 targeted scenarios, under 32 configurations (two plain, a family of user-name pairs in which one name matches the other as a pattern x row orders, two with the Okta authenticator); cookies attached singly and in pairs in both orders; non-trivial = the history contains at least one level upgrade; distinct by (operations, outputs)")
+	res := newVerifResult("exhaustive depth-3 histories over 13 core letters and depth-2 over all 32 letters of the alphabet, depth 3 over the 8 letters of the Okta alphabet under the Okta configuration (thorough: depth 3 over 20 letters, depth 4 over the first eight and over the Okta letters); requests optionally authenticated by a verified client certificate, with failing profile writes, or served from the cache database, and coming from eight client addresses (RemoteAddr: hosts, ports, IPv6; X-Forwarded-For / X-Real-IP / Forwarded; a local proxy — one random request in four, three letters, one scenario), after the prefix [login user 1; login user 2] + seeded random histories of length <= 12 (thorough <= 20) over all operations + 19 targeted scenarios, under 32 configurations (two plain, a family of user-name pairs in which one name matches the other as a pattern x row orders, two with the Okta authenticator); cookies attached singly and in pairs in both orders; non-trivial = the history contains at least one level upgrade; distinct by (operations, outputs, addresses)")
 	vip := &c05Vip{}
 	vip.reset()
 	// lib/vip builds a new http.Transport for every call and never closes its idle connection: without
@@ -2317,6 +2447,7 @@ func TestVerif_C05(t *testing.T) {
 		ops, outs []string
 		human     []string
 		tag       string
+		addrs     map[int]int // position -> client address of the request (absent: 0)
 	}
 	var all []hist
 	finishHistory := func(cfg int, tag string) {
@@ -2326,8 +2457,8 @@ func TestVerif_C05(t *testing.T) {
 				upgrades++
 			}
 		}
-		res.eval(strings.Join(w.ops, ";")+"|"+strings.Join(w.outs, ";"), upgrades > 2)
-		all = append(all, hist{cfg, w.ops, w.outs, w.human, tag})
+		res.eval(strings.Join(w.ops, ";")+"|"+strings.Join(w.outs, ";")+"|"+fmt.Sprint(w.addrAt), upgrades > 2)
+		all = append(all, hist{cfg, w.ops, w.outs, w.human, tag, w.addrAt})
 		if len(res.Samples) < 3 && upgrades > 3 {
 			res.sample(map[string]interface{}{"history": w.human, "outputs": w.outs})
 		}
@@ -2387,7 +2518,7 @@ func TestVerif_C05(t *testing.T) {
 		// depth 3 over the 13 core letters plus the six letters of rounds 3 and 4 (another session of the same
 		// user an hour later; a second sign request after 31 s; an assertion over the first challenge; the other
 		// user's code; TOTP and bootstrap OTP served from the cache): 19^3 = 6859; all 29 at depth 2
-		enumerate(append(append([]int{}, c05Core...), 19, 24, 25, 26, 27, 28), 3, "exhaustive")
+		enumerate(append(append([]int{}, c05Core...), 19, 24, 25, 26, 27, 28, 29), 3, "exhaustive")
 		enumerate(allLetters, 2, "exhaustive-depth2")
 		enumerate(allLetters[:8], 4, "exhaustive-depth4")
 	} else {
@@ -2435,6 +2566,8 @@ func TestVerif_C05(t *testing.T) {
 		finishHistory(ci, "random")
 		res.bump("history:random")
 	}
+	// single use over interleavings: right value || wrong value under every schedule (c05conc.go)
+	c05Concurrent(t, w, configs)
 	for _, p := range env.panics {
 		res.bump("handler-panic")
 		res.Extra["panic"] = p
@@ -2450,7 +2583,7 @@ func TestVerif_C05(t *testing.T) {
 	}
 	var sb strings.Builder
 	sb.WriteString(coqCaseHeader)
-	sb.WriteString("From KM Require Import Base.Cases Model.Session Model.Profiles Model.SessionObs.\nOpen Scope N_scope.\n")
+	sb.WriteString("From KM Require Import Base.Cases Model.Session Model.Profiles Model.SessionObs Model.SessionAddr.\nOpen Scope N_scope.\n")
 	sb.WriteString("Definition A (u ch : N) (wa : bool) : assertion := {| a_owner := u; a_wa_key := wa; a_chal := ch |}.\n")
 	sb.WriteString("Definition D (t u w : bool) : devices := {| has_totp := t; has_u2f := u; has_wa := w; has_profile := true |}.\n")
 	// per configuration: the names of the users (byte strings) and the profile table as the harness wrote it,
@@ -2479,9 +2612,9 @@ func TestVerif_C05(t *testing.T) {
 	sb.WriteString("Definition cfg_of (i : N) : config := nth (N.to_nat i) all_cfgs (fixed devs0 webui_mask).\n")
 	sb.WriteString("(* distinct users have distinct names (the model compares user numbers, the code compares names) *)\nDefinition names_ok : bool := " + strings.Join(namesOK, " && ") + ".\n")
 	sb.WriteString(fmt.Sprintf("(* maxAgeSecondsAuthCookie / maxAgeSecondsVIPCookie / maxAgeU2FVerifySeconds of the tree must be the lifetimes the theorems are stated with *)\nDefinition life_ok : bool := ((%d =? cookie_life (cfg_of 0)) && (%d =? vip_life (cfg_of 0)) && (%d =? chal_life))%%Z.\n", int64(maxAgeSecondsAuthCookie), int64(maxAgeSecondsVIPCookie), int64(maxAgeU2FVerifySeconds)))
-	sb.WriteString("Definition hist := (N * list op * list observed)%type.\n")
-	sb.WriteString("Definition bad (h : hist) : bool :=\n  let '(i, ops, obs) := h in negb (life_ok && names_ok && match obs_agree (run_obs (cfg_of i) init ops) obs 0 with [] => true | _ => false end).\n")
-	sb.WriteString("(* the property's own predicates on the observed outputs of a mismatching history (Model.SessionObs) *)\nDefinition viol (h : hist) : nat := let '(i, ops, obs) := h in violation (cfg_of i) init ops obs.\n")
+	sb.WriteString("(* a history is a list of (client address, operation): the model is evaluated by run_obs_at (Model.SessionAddr) *)\nDefinition hist := (N * list areq * list observed)%type.\n")
+	sb.WriteString("Definition bad (h : hist) : bool :=\n  let '(i, ops, obs) := h in negb (life_ok && names_ok && match obs_agree (run_obs_at (cfg_of i) init ops) obs 0 with [] => true | _ => false end).\n")
+	sb.WriteString("(* the property's own predicates on the observed outputs of a mismatching history (Model.SessionObs) *)\nDefinition viol (h : hist) : nat := let '(i, ops, obs) := h in violation (cfg_of i) init (ops_of ops) obs.\n")
 	sb.WriteString("Definition cases : list hist := [\n")
 	var idx strings.Builder
 	for i, h := range all {
@@ -2489,12 +2622,16 @@ func TestVerif_C05(t *testing.T) {
 		if i == len(all)-1 {
 			sep = ""
 		}
-		sb.WriteString(fmt.Sprintf(" (%d, [%s], [%s])%s\n", h.cfg, strings.Join(h.ops, "; "), strings.Join(h.outs, "; "), sep))
+		areqs := make([]string, len(h.ops))
+		for j, o := range h.ops {
+			areqs[j] = fmt.Sprintf("(%d, %s)", h.addrs[j], o)
+		}
+		sb.WriteString(fmt.Sprintf(" (%d, [%s], [%s])%s\n", h.cfg, strings.Join(areqs, "; "), strings.Join(h.outs, "; "), sep))
 		idx.WriteString(fmt.Sprintf("%d\t%s cfg=%d(%s: 1=%q 2=%q) %s => %s\n", i, h.tag, h.cfg, configs[h.cfg].tag, configs[h.cfg].names[1], configs[h.cfg].names[2], strings.Join(h.human, " ; "), strings.Join(h.outs, " ")))
 	}
 	sb.WriteString("].\nDefinition c05_mismatches := Eval vm_compute in mismatches bad cases.\nPrint c05_mismatches.\n")
 	sb.WriteString("Definition c05_ncases := Eval vm_compute in length cases.\nPrint c05_ncases.\n")
-	sb.WriteString("Definition c05_first := Eval vm_compute in match c05_mismatches with [] => [] | i :: _ => match nth_error cases i with Some (c, ops, obs) => obs_agree (run_obs (cfg_of c) init ops) obs 0 | None => [] end end.\nPrint c05_first.\n")
+	sb.WriteString("Definition c05_first := Eval vm_compute in match c05_mismatches with [] => [] | i :: _ => match nth_error cases i with Some (c, ops, obs) => obs_agree (run_obs_at (cfg_of c) init ops) obs 0 | None => [] end end.\nPrint c05_first.\n")
 	sb.WriteString("Definition c05_violating := Eval vm_compute in classify bad viol cases 0.\nPrint c05_violating.\n")
 	if err := ioutil.WriteFile(filepath.Join(verifOut(), "CasesC05.v"), []byte(sb.String()), 0644); err != nil {
 		t.Fatal(err)
